@@ -1093,20 +1093,18 @@ impl<'de> Deserialize<'de> for KmerMinHashBTree {
             _ => unimplemented!(), // TODO: throw error here
         };
 
-        let current_max;
         // This shouldn't be necessary, but at some point we
         // created signatures with unordered mins =(
-        let (mins, abunds) = if let Some(abunds) = tmpsig.abundances {
+        let (mins, abunds): (BTreeSet<u64>, _) = if let Some(abunds) = tmpsig.abundances {
             let mut values: Vec<(_, _)> = tmpsig.mins.iter().zip(abunds.iter()).collect();
             values.sort();
             let mins: BTreeSet<_> = values.iter().map(|(v, _)| **v).collect();
             let abunds = values.into_iter().map(|(v, x)| (*v, *x)).collect();
-            current_max = *mins.iter().next_back().unwrap_or(&0);
             (mins, Some(abunds))
         } else {
-            current_max = 0;
             (tmpsig.mins.into_iter().collect(), None)
         };
+        let current_max = *mins.iter().next_back().unwrap_or(&0);
 
         Ok(KmerMinHashBTree {
             num,
@@ -1256,7 +1254,8 @@ impl KmerMinHashBTree {
         }
 
         if abundance == 0 {
-            // well, don't add it.
+            // zero abundance removes, as KmerMinHash does
+            self.remove_hash(hash);
             return;
         }
 
@@ -1349,6 +1348,7 @@ impl KmerMinHashBTree {
             }
             self.abunds = Some(new_abunds)
         }
+        self.current_max = *self.mins.iter().next_back().unwrap_or(&0);
         // Better safe than sorry, but could check in other places to avoid
         // always resetting
         self.reset_md5sum();
@@ -1725,6 +1725,7 @@ impl From<KmerMinHash> for KmerMinHashBTree {
 
         new_mh.mins = mins;
         new_mh.abunds = abunds;
+        new_mh.current_max = *new_mh.mins.iter().next_back().unwrap_or(&0);
 
         new_mh
     }
